@@ -70,16 +70,21 @@ impl Write for Conn {
 pub struct Servers {
     pub unix: Option<(Server, std::path::PathBuf)>,
     pub tcp: Option<(Server, std::net::SocketAddr)>,
+    pub suffix: &'static str,
 }
 
 impl Servers {
     pub fn new() -> Servers {
-        Servers { unix: None, tcp: None }
+        Servers { unix: None, tcp: None, suffix: "" }
+    }
+    /// servers of their own (another socket path), for a conversation that must not share its request queue
+    pub fn fresh(suffix: &'static str) -> Servers {
+        Servers { unix: None, tcp: None, suffix }
     }
     pub fn unix(&mut self) -> &(Server, std::path::PathBuf) {
         if self.unix.is_none() {
             let dir = std::env::var("TH_SOCK_DIR").unwrap_or_else(|_| "/tmp".into());
-            let path = std::path::PathBuf::from(format!("{}/h{}.sock", dir, std::process::id()));
+            let path = std::path::PathBuf::from(format!("{}/h{}{}.sock", dir, std::process::id(), self.suffix));
             let _ = std::fs::remove_file(&path);
             let s = Server::http_unix(&path).expect("unix server");
             self.unix = Some((s, path));
@@ -644,7 +649,11 @@ pub fn run_case(servers: &mut Servers, f: &[&str]) -> String {
 /// The client sends its bytes and vanishes at once: `full` = closes the socket (FIN; later data from
 /// the server is answered by RST), `rst` = abortive close (SO_LINGER 0, TCP). Nothing can be read
 /// back; the observation is what the application was handed and whether answering worked.
-fn run_vanish(servers: &mut Servers, kind: &str, stream: &[u8], script: &[Action], fin: &str, c14: bool) -> String {
+fn run_vanish(_shared: &mut Servers, kind: &str, stream: &[u8], script: &[Action], fin: &str, c14: bool) -> String {
+    // a server of its own: the request of a client that has vanished may be delivered arbitrarily late (the connection
+    // thread has to notice first); with a shared server it would turn up in a later case
+    let mut own = Servers::fresh("v");
+    let servers = &mut own;
     let mut c = servers.connect(kind);
     let peer = c.local_addr_string();
     let _ = c.write_all(stream);
